@@ -396,7 +396,7 @@ func runGroup(spec *Spec, gi int, specDir, verifRoot, tier, only, paramFilter st
 			results[idx] = r
 			progressMu.Lock()
 			progressDone++
-			fmt.Fprintf(os.Stderr, "[gosx] %d %s: paths=%d viol=%d inconcl=%d %.1fs\n", progressDone, in, r.paths, len(r.violations), len(r.inconclusive), r.wall.Seconds())
+			fmt.Fprintf(os.Stderr, "[gosx] %d %s: paths=%d viol=%d inconcl=%d %.1fs reach=%v\n", progressDone, in, r.paths, len(r.violations), len(r.inconclusive), r.wall.Seconds(), r.reach)
 			progressMu.Unlock()
 		}(idx)
 	}
